@@ -6,6 +6,7 @@ import (
 	"fmt"
 	"math/big"
 	"math/rand"
+	"os"
 	"strings"
 
 	sdkmath "cosmossdk.io/math"
@@ -183,6 +184,12 @@ func c04Exec(c Case) (outs []string, fails []Failure, tags []string) {
 	sabi, _ := stakingpc.LoadABI()
 	stk := common.HexToAddress(stakingpc.PrecompileAddress)
 	price := big.NewInt(2_000_000_000)
+	// the fixture is shared by all cases of a run: keep the signer able to pay its fees
+	if ctx := nw.GetContext(); app.BankKeeper.GetBalance(ctx, E.AccAddr, denom).Amount.LT(sdkmath.NewInt(1_000_000_000_000_000_000)) {
+		coins := sdk.NewCoins(sdk.NewCoin(denom, sdkmath.NewInt(1_000_000_000_000_000_000).MulRaw(100)))
+		_ = app.BankKeeper.MintCoins(ctx, coinomicstypes.ModuleName, coins)
+		_ = app.BankKeeper.SendCoinsFromModuleToAccount(ctx, coinomicstypes.ModuleName, E.AccAddr, coins)
+	}
 	addrOf := func(id int) common.Address {
 		switch id {
 		case 0:
@@ -221,6 +228,13 @@ func c04Exec(c Case) (outs []string, fails []Failure, tags []string) {
 			case "newval":
 				// a validator that did not exist when the earlier approvals snapshotted their allow-lists
 				n := len(c04Vals)
+				if n >= 40 {
+					// (the fixture's validator set is shared by all cases of a run: a few hundred validators make every
+					// approval's allow-list outgrow the transaction's gas limit, which is not what this check is about)
+					out = "skip"
+					tags = append(tags, "newval-capped")
+					return
+				}
 				op := testAddr(700 + n)
 				ctx := nw.GetContext()
 				coins := sdk.NewCoins(sdk.NewCoin(denom, sdkmath.NewInt(2_000_000_000_000_000_000)))
@@ -294,12 +308,17 @@ func c04Exec(c Case) (outs []string, fails []Failure, tags []string) {
 				if err != nil {
 					panic(err)
 				}
-				res, _, _ := c07Send(puppetOrigin, evmtypes.EvmTxArgs{To: &stk, Input: in, GasLimit: 500_000, GasPrice: price})
+				res, _, _ := c07Send(puppetOrigin, evmtypes.EvmTxArgs{To: &stk, Input: in, GasLimit: 3_000_000, GasPrice: price})
 				okExec := res.Code == 0
 				if okExec {
 					if txr, e := evmtypes.DecodeTxResponse(res.Data); e == nil && txr.Failed() {
 						okExec = false
+						if os.Getenv("VERIF_DEBUG") != "" {
+							fmt.Fprintln(os.Stderr, "C04 allowance call failed:", txr.VmError, "gas used", txr.GasUsed)
+						}
 					}
+				} else if os.Getenv("VERIF_DEBUG") != "" {
+					fmt.Fprintln(os.Stderr, "C04 allowance tx rejected:", res.Log)
 				}
 				post, _ := c04Grant(method)
 				st := "fail"
@@ -387,15 +406,20 @@ func c04Exec(c Case) (outs []string, fails []Failure, tags []string) {
 				b0 := []*big.Int{bonded(E.Addr), bonded(puppetAddr)}
 				var failed bool
 				if caller == 0 {
-					res, _, _ := c07Send(puppetOrigin, evmtypes.EvmTxArgs{To: &stk, Input: in, GasLimit: 1_000_000, GasPrice: price})
+					res, _, _ := c07Send(puppetOrigin, evmtypes.EvmTxArgs{To: &stk, Input: in, GasLimit: 10_000_000, GasPrice: price})
 					failed = res.Code != 0
 					if !failed {
 						if txr, e := evmtypes.DecodeTxResponse(res.Data); e == nil {
 							failed = txr.Failed()
+							if failed && os.Getenv("VERIF_DEBUG") != "" {
+								fmt.Fprintln(os.Stderr, "C04 scall failed:", txr.VmError, "gas used", txr.GasUsed, "native", native)
+							}
 						}
+					} else if os.Getenv("VERIF_DEBUG") != "" {
+						fmt.Fprintln(os.Stderr, "C04 scall rejected:", res.Log)
 					}
 				} else {
-					o := puppetRun(big.NewInt(0), puppetCall(1, stk, big.NewInt(0), in), 2_000_000)
+					o := puppetRun(big.NewInt(0), puppetCall(1, stk, big.NewInt(0), in), 12_000_000)
 					failed = o.code != 0 || o.failed
 				}
 				post, _ := c04Grant(method)
